@@ -100,6 +100,13 @@ def run(chk, tier):
     h = fx.method("dicom_ul", f"{A}::client::ClientAssociationOptions", "process_a_association_resp")
     lets = [x for x in H.walk(h["body"]) if H.kind(x) == "slet" and H.pat_bindings(x[2]) == ["presentation_contexts"]]
     chk.expect(len(lets) == 1, "response-processing", "process_a_association_resp", "binding", 1, len(lets), loc=C.fn_loc(h))
+    # the association is refused when the acceptor answers with another protocol version (and only then)
+    pv = [x for x in H.walk(h["body"]) if H.kind(x) == "if" and "protocol_version" in H.show(x[2], 6)]
+    pv_t = [H.show(x[2], 6) for x in pv]
+    ok_pv = len(pv) == 1 and pv_t[0] in ("Not((self.protocol_version Eq protocol_version_scp))", "(self.protocol_version Ne protocol_version_scp)",
+                                         "Not((protocol_version_scp Eq self.protocol_version))", "(protocol_version_scp Ne self.protocol_version)") \
+        and any(H.kind(y) == "ret" for y in H.walk(pv[0][3])) and "ProtocolVersionMismatch" in H.show(pv[0][3], 8)
+    chk.expect(ok_pv, "response-processing", "process_a_association_resp", "protocol-version-must-match", "ensure!(self.protocol_version == protocol_version_scp, ProtocolVersionMismatch)", pv_t, loc=C.fn_loc(h))
     if lets:
         e = lets[0][3]
         names = []
